@@ -36,6 +36,10 @@ def main():
 def do_replay(ctx, plug, path):
   payload = json.load(open(path))
   fail = run_replay(plug, ctx, payload)
+  kf = C.match_finding(ctx.prop, fail) if fail else None
+  if kf:  # the recorded input now shows exactly a listed known finding (not the violation the replay was written for)
+    print(f"KNOWN-FINDING: property={ctx.prop} {kf['text']}")
+    return 0
   if fail:
     print(f"replay still fails: {fail.get('what', fail.get('signature'))}")
     print(f"VIOLATION property={ctx.prop} replay={path}")
